@@ -1,1 +1,212 @@
-pub struct Dummy;
+//! Reference models (DESIGN 3.4): network semantics and textbook activation
+//! definitions over exact rationals.  Deliberately boring.
+
+use crate::q::{dot, Q};
+use crate::regions::{AffMap, Form, Side};
+
+#[derive(Clone, Debug)]
+pub enum RLayer {
+    Linear(AffMap),
+    Relu(usize),
+    Leaky(usize, Q),
+    HardTanh(usize, Q, Q),
+    HardSigmoid(usize),
+    HardShrink(usize, Q),
+    Threshold(usize, Q, Q),
+    Argmax,
+    ClassChar(usize),
+    /// 1 iff all components within optional [min, max]
+    InfNorm(Option<Q>, Option<Q>),
+}
+
+/// closed polytope rows a.x <= b
+pub type Rows = Vec<(Vec<Q>, Q)>;
+
+#[derive(Clone, Debug)]
+pub struct RefNet {
+    pub n: usize,
+    /// precondition: defined exactly on the closed polytope, mapping through the given function
+    pub pre: Option<(Rows, AffMap)>,
+    pub layers: Vec<RLayer>,
+}
+
+fn const_row(n: usize, v: Q) -> (Vec<Q>, Q) {
+    (vec![Q::ZERO; n], v)
+}
+
+impl RefNet {
+    pub fn new(n: usize, layers: Vec<RLayer>) -> RefNet {
+        RefNet { n, pre: None, layers }
+    }
+}
+
+/// sign of a form at x, and record it as a guard
+fn sgn(f: &Form, x: &[Q], guards: &mut Vec<Form>) -> i8 {
+    guards.push(f.clone());
+    f.eval(x).sign()
+}
+
+pub fn apply_layer(l: &RLayer, cur: AffMap, n: usize, x: &[Q], guards: &mut Vec<Form>) -> Result<AffMap, String> {
+    let mut cur = cur;
+    match l {
+        RLayer::Linear(a) => {
+            if a.indim() != cur.outdim() && !(a.m.is_empty()) {
+                return Err(format!("reference: linear layer expects {} inputs, got {}", a.indim(), cur.outdim()));
+            }
+            Ok(a.after(&cur, n))
+        }
+        RLayer::Relu(i) => {
+            let f = cur.row(*i);
+            if sgn(&f, x, guards) <= 0 {
+                cur.m[*i] = vec![Q::ZERO; n];
+                cur.c[*i] = Q::ZERO;
+            }
+            Ok(cur)
+        }
+        RLayer::Leaky(i, alpha) => {
+            let f = cur.row(*i);
+            if sgn(&f, x, guards) <= 0 {
+                cur.m[*i] = cur.m[*i].iter().map(|v| v * alpha).collect();
+                cur.c[*i] = &cur.c[*i] * alpha;
+            }
+            Ok(cur)
+        }
+        RLayer::HardTanh(i, lo, hi) => {
+            let f = cur.row(*i);
+            let fhi = Form::new(f.a.clone(), &f.c - hi);
+            if sgn(&fhi, x, guards) >= 0 {
+                let (a, c) = const_row(n, hi.clone());
+                cur.m[*i] = a;
+                cur.c[*i] = c;
+                return Ok(cur);
+            }
+            let flo = Form::new(f.a.clone(), &f.c - lo);
+            if sgn(&flo, x, guards) <= 0 {
+                let (a, c) = const_row(n, lo.clone());
+                cur.m[*i] = a;
+                cur.c[*i] = c;
+            }
+            Ok(cur)
+        }
+        RLayer::HardSigmoid(i) => {
+            let f = cur.row(*i);
+            let fhi = Form::new(f.a.clone(), &f.c - &Q::int(3));
+            if sgn(&fhi, x, guards) >= 0 {
+                let (a, c) = const_row(n, Q::ONE);
+                cur.m[*i] = a;
+                cur.c[*i] = c;
+                return Ok(cur);
+            }
+            let flo = Form::new(f.a.clone(), &f.c + &Q::int(3));
+            if sgn(&flo, x, guards) <= 0 {
+                let (a, c) = const_row(n, Q::ZERO);
+                cur.m[*i] = a;
+                cur.c[*i] = c;
+                return Ok(cur);
+            }
+            let sixth = Q::frac(1, 6);
+            cur.m[*i] = cur.m[*i].iter().map(|v| v * &sixth).collect();
+            cur.c[*i] = &(&cur.c[*i] * &sixth) + &Q::frac(1, 2);
+            Ok(cur)
+        }
+        RLayer::HardShrink(i, lam) => {
+            // x if |x| > lambda else 0
+            let f = cur.row(*i);
+            let fhi = Form::new(f.a.clone(), &f.c - lam);
+            if sgn(&fhi, x, guards) > 0 {
+                return Ok(cur);
+            }
+            let flo = Form::new(f.a.clone(), &f.c + lam);
+            if sgn(&flo, x, guards) < 0 {
+                return Ok(cur);
+            }
+            cur.m[*i] = vec![Q::ZERO; n];
+            cur.c[*i] = Q::ZERO;
+            Ok(cur)
+        }
+        RLayer::Threshold(i, th, val) => {
+            // x if x > threshold else value
+            let f = cur.row(*i);
+            let ft = Form::new(f.a.clone(), &f.c - th);
+            if sgn(&ft, x, guards) <= 0 {
+                let (a, c) = const_row(n, val.clone());
+                cur.m[*i] = a;
+                cur.c[*i] = c;
+            }
+            Ok(cur)
+        }
+        RLayer::Argmax => {
+            let y = cur.apply(x);
+            if y.is_empty() {
+                return Err("argmax of empty vector".into());
+            }
+            let mut k = 0;
+            for j in 1..y.len() {
+                if y[j] > y[k] {
+                    k = j;
+                }
+            }
+            // first index of a maximal component; record every comparison that fixes it
+            for j in 0..y.len() {
+                if j != k {
+                    let d = cur.row(j).sub(&cur.row(k));
+                    sgn(&d, x, guards);
+                }
+            }
+            Ok(AffMap { m: vec![vec![Q::ZERO; n]], c: vec![Q::int(k as i64)] })
+        }
+        RLayer::ClassChar(c) => {
+            let mut is_max = true;
+            for j in 0..cur.outdim() {
+                if j != *c {
+                    let d = cur.row(j).sub(&cur.row(*c));
+                    if sgn(&d, x, guards) > 0 {
+                        is_max = false;
+                        break;
+                    }
+                }
+            }
+            Ok(AffMap { m: vec![vec![Q::ZERO; n]], c: vec![if is_max { Q::ONE } else { Q::ZERO }] })
+        }
+        RLayer::InfNorm(lo, hi) => {
+            let mut inside = true;
+            'o: for j in 0..cur.outdim() {
+                let f = cur.row(j);
+                if let Some(lo) = lo {
+                    if sgn(&Form::new(f.a.clone(), &f.c - lo), x, guards) < 0 {
+                        inside = false;
+                        break 'o;
+                    }
+                }
+                if let Some(hi) = hi {
+                    if sgn(&Form::new(f.a.clone(), &f.c - hi), x, guards) > 0 {
+                        inside = false;
+                        break 'o;
+                    }
+                }
+            }
+            Ok(AffMap { m: vec![vec![Q::ZERO; n]], c: vec![if inside { Q::ONE } else { Q::ZERO }] })
+        }
+    }
+}
+
+impl Side for RefNet {
+    fn eval(&self, x: &[Q], guards: &mut Vec<Form>) -> Result<Option<AffMap>, String> {
+        let n = self.n;
+        let mut cur = AffMap::identity(n);
+        if let Some((rows, f)) = &self.pre {
+            for (a, b) in rows {
+                let g = Form::new(a.clone(), -b.clone());
+                guards.push(g);
+                if &dot(a, x) > b {
+                    return Ok(None);
+                }
+            }
+            cur = f.clone();
+        }
+        for l in &self.layers {
+            cur = apply_layer(l, cur, n, x, guards)?;
+        }
+        Ok(Some(cur))
+    }
+}
